@@ -285,8 +285,14 @@ def enc_val(v):
         return v
     if isinstance(v, (set, frozenset)):
         return sorted((enc_val(x) for x in v), key=idkey)
-    if isinstance(v, tuple):   # hashable; canonical text "(a, b)" as the model writes it
-        return {"$o": "(" + ", ".join(json.dumps(x) for x in v) + ")"}
+    if isinstance(v, tuple):   # canonical text "(a, b)" as the model writes it; the model reads a leading "(" as
+        # "hashable" (merge_duplicate_edges builds sets of attribute values), so a tuple around a mutable value is marked
+        try:
+            hash(v)
+            mark = ""
+        except TypeError:
+            mark = "!"
+        return {"$o": mark + "(" + ", ".join(json.dumps(x, sort_keys=True, default=repr) for x in v) + ")"}
     return {"$o": json.dumps(v, sort_keys=True, default=repr)}
 
 
